@@ -993,7 +993,9 @@ class IntermediateCodeGen(AbstractCodeGen):
         self._importMap.clear()
         self._out.clear()
         self._moduleIdentityOid = None
+        self._moduleRevision = None
         self._enterpriseOid = None
+        self.fakeidx = self.__class__.fakeidx
         self._oids = set()
         self._complianceOids = []
         self.moduleName[0], moduleOid, imports, declarations = ast
